@@ -167,8 +167,10 @@ def run(ctx):
             viol.append({"kind": "single-constituent module raised", "error": repr(ex)[:300]})
 
     # ---- C. sibling order: all permutations of the branches that keep the parent vector sorted
-    trees = [[-1, 0, 0], [-1, 0, 0, 0], [-1, 0, 0, 1, 1], [-1, 0, 1, 1]]
-    for parents in trees[: ctx.budget(3, 4)]:
+    # (the first tree with siblings 1, 2 swapped gives [-1, 0, 0, 2, 1]: a sorted parent vector in which the
+    #  parents of consecutive branches are NOT in increasing order, i.e. not a level-order numbering)
+    trees = [[-1, 0, 0, 1, 2], [-1, 0, 0], [-1, 0, 0, 1, 1], [-1, 0, 0, 0], [-1, 0, 1, 1], [-1, 0, 0, 1, 2, 2, 1]]
+    for parents in trees[: ctx.budget(4, 6)]:
         nb = len(parents)
         counts = [rng.randint(1, 3) for _ in range(nb)]
         spec = simlib.rand_spec(rng, parents, counts, stim=True)
@@ -176,6 +178,8 @@ def run(ctx):
         base = None
         perms = [p for p in itertools.permutations(range(nb)) if p[0] == 0]
         rng.shuffle(perms)
+        swap12 = tuple([0, 2, 1] + list(range(3, nb)))
+        perms = [swap12] + [p for p in perms if p != swap12]
         for perm in perms[: ctx.budget(4, 24)]:
             # new branch k is old branch perm[k]; parents must stay sorted
             inv = {old: new for new, old in enumerate(perm)}
